@@ -513,4 +513,5 @@ func runC11(c *Ctx) {
 	runC11Lifecycle(c, names)
 	runC11Watchers(c)
 	runC11Shares4(c)
+	runC11Round5(c)
 }
